@@ -20,14 +20,29 @@ ML = "GridOperation.MachineLearning"
 
 
 def _unmodified_branch(fi):
-    """statements executed for `not self.grid.modified_basis`"""
-    for st in walk_local(fi.node):
-        if isinstance(st, ast.If):
-            t = st.test
-            neg = isinstance(t, ast.UnaryOp) and isinstance(t.op, ast.Not)
-            inner = t.operand if neg else t
-            if isinstance(inner, ast.Attribute) and inner.attr == "modified_basis":
-                return st.body if neg else st.orelse
+    """statements executed for `not self.grid.modified_basis`: the matching branch of the if, or -- guard form -- the statements that
+    follow `if modified_basis: ...; return` in its block"""
+    for node in ast.walk(fi.node):
+        for field in ("body", "orelse", "finalbody"):
+            block = getattr(node, field, None)
+            if not (isinstance(block, list) and block and isinstance(block[0], ast.stmt)):
+                continue
+            for k, st in enumerate(block):
+                if not isinstance(st, ast.If):
+                    continue
+                t = st.test
+                neg = isinstance(t, ast.UnaryOp) and isinstance(t.op, ast.Not)
+                inner = t.operand if neg else t
+                if not (isinstance(inner, ast.Attribute) and inner.attr == "modified_basis"):
+                    continue
+                branch = st.body if neg else st.orelse
+                other = st.orelse if neg else st.body
+                if branch:
+                    # `if not modified: A; return` followed by the modified code: A is the branch
+                    return branch
+                if other and isinstance(other[-1], (ast.Return, ast.Raise)):
+                    return block[k + 1:]
+                return branch
     return None
 
 
